@@ -199,3 +199,47 @@ def replay_e1(history):
     n, diffs = _diff(d, "replay")
     return {"diffs": diffs, "oracle": _oracle(d, "replay"),
             "observations": open(os.path.join(d, "observations.txt")).read().strip()}
+
+
+def shrink_e1(history, props, max_rounds=60):
+    """delta debugging on the requests of a failing history: any sub-sequence is a legitimate input (requests the
+    builder refuses are refused), so a candidate is kept whenever one of the property oracles still fails on it.
+    One bdiff run evaluates all the candidates of a round."""
+    ok, o = harness_build(["bdiff"])
+    if not ok:
+        return history, None
+    d = os.path.join(CACHE, "run", "e1-shrink")
+
+    def failing(cands):
+        shutil.rmtree(d, ignore_errors=True)
+        os.makedirs(d)
+        open(os.path.join(d, "h.txt"), "w").write("\n".join(" ".join(c) for c in cands) + "\n")
+        _run_bdiff(["--mode", "file", "--file", os.path.join(d, "h.txt"), "--no-model"], d)
+        bad = {}
+        for o in _oracle(d, "shrink"):
+            if o["property"] in props:
+                bad.setdefault(o["history"], o)
+        return [bad.get(" ".join(c)) for c in cands]
+
+    toks = history.split()
+    first = failing([toks])[0]
+    if first is None:
+        return history, None
+    best = first
+    n = 2
+    rounds = 0
+    while len(toks) >= 2 and rounds < max_rounds:
+        rounds += 1
+        chunk = max(1, -(-len(toks) // n))
+        cands = [toks[:i] + toks[i + chunk:] for i in range(0, len(toks), chunk)]
+        cands = [c for c in cands if c]
+        res = failing(cands)
+        hit = next((k for k, r in enumerate(res) if r is not None), None)
+        if hit is not None:
+            toks, best = cands[hit], res[hit]
+            n = max(n - 1, 2)
+        elif chunk == 1:
+            break
+        else:
+            n = min(len(toks), n * 2)
+    return " ".join(toks), best
